@@ -26,6 +26,9 @@
 //	clock      the virtual clock (installed in server/schedule and server/schedule/operator
 //	           through the build overlay) advances by 1 s ... 31 min
 //	influence  GetOpInfluence, as the schedulers call it (it runs CheckTimeout on running operators)
+//	observer   an outside reader looks at a running or waiting operator the way the hot-region
+//	           scheduler (CheckExpired() || CheckTimeout()), the HTTP listings and the log lines do
+//	           (CheckTimeout, CheckSuccess, String, Status)
 //	foreign    somebody else changes the region on the store (conf change, joint
 //	           enter/leave, leader transfer, split), tagged foreign in the simulator
 //
@@ -205,10 +208,10 @@ func genCase(t *rapid.T) Case {
 	nOps := simkit.IntU(t, 4, 36, "nOps")
 	focused := simkit.Pct(t, 30, "focused")
 	kinds := []string{"build", "build", "build", "exec", "exec", "exec", "exec", "exec", "exec", "exec", "exec",
-		"hb", "hb", "push", "push", "remove", "foreign", "foreign", "foreign", "lose", "add", "clock", "clock", "influence", "hbs"}
+		"hb", "hb", "push", "push", "remove", "foreign", "foreign", "foreign", "lose", "add", "clock", "clock", "influence", "hbs", "observer", "observer"}
 	if focused {
 		kinds = []string{"exec", "exec", "exec", "exec", "exec", "exec", "exec", "exec", "exec", "exec", "exec", "exec",
-			"hb", "push", "build", "foreign", "clock", "influence", "hbs"}
+			"hb", "push", "build", "foreign", "clock", "influence", "hbs", "observer"}
 	}
 	region := func() int { return simkit.IntU(t, 0, 3, "r") }
 	add := func(r int) Op {
@@ -288,6 +291,9 @@ func genCase(t *rapid.T) Case {
 			if !op.NoHB && simkit.Pct(t, 30, "race") {
 				op.Race = simkit.Pick(t, []int{1, 2, 2, 3}, "raceMode")
 			}
+		case "observer":
+			op.Which = simkit.IntU(t, 0, 3, "whichObserved")
+			op.N = simkit.Pick(t, []int{0, 0, 0, 1, 2, 3, 4, 5}, "observerCall")
 		case "clock":
 			op.D = simkit.Pick(t, []int{0, 0, 1, 1, 2, 2, 3, 3, 4, 5, 6}, "d")
 		case "remove":
